@@ -400,7 +400,7 @@ struct P<'a> {
     depth: usize,
 }
 
-const MAX_DEPTH: usize = 200;
+const MAX_DEPTH: usize = 1000;
 
 impl<'a> P<'a> {
     fn byte(&mut self) -> Result<u8, ParseErr> {
